@@ -88,7 +88,7 @@ func (p *Program) functionsFor(prop string) []string {
 	var out []string
 	for _, n := range p.CS.Order {
 		c := p.CS.Funcs[n]
-		if c.Kind == "extern" || c.Kind == "iface" || c.Trusted {
+		if c.Kind == "extern" || c.Kind == "iface" || c.Kind == "callback" || c.Trusted {
 			continue
 		}
 		use := hasProp(c.Props, prop) || hasProp(c.NoPanicP, prop) || hasProp(c.FrameP, prop)
@@ -379,6 +379,9 @@ func standingAssumptions(p *Program, fns []string) []string {
 		c := p.CS.Funcs[n]
 		if c.Kind == "extern" {
 			out = append(out, "extern contract (trusted): "+n)
+		}
+		if c.Kind == "callback" {
+			out = append(out, "callback contract (assumed for the caller-supplied function): "+n)
 		}
 		if c.Kind == "iface" {
 			out = append(out, "interface contract (assumed at dynamic calls; implementations listed under functions_under_contract are checked against it where a contract names them): "+n)
